@@ -560,10 +560,16 @@ class FunctionTranslator:
         a, ta, pa = self.scoped_expr(node.body, env)
         b, tb, pb = self.scoped_expr(node.orelse, env)
         if ta != tb:
+            want_ = getattr(self, "value_hint", None)
             if ta == Z and tb == Q and not pa:
                 a, ta = self.coerce(Val(a, Z), Q, node).code, Q
             elif tb == Z and ta == Q and not pb:
                 b, tb = self.coerce(Val(b, Z), Q, node).code, Q
+            elif want_ is not None:
+                # additive (C18): `e1 if c else e2` as the value of a str-keyed dict literal whose value type the spec fixes: both
+                # branches are coerced to that type (spec coercions; fails closed if one of them has none)
+                a, ta, pa = self.scoped_expr(node.body, env, want=want_)
+                b, tb, pb = self.scoped_expr(node.orelse, env, want=want_)
             else:
                 self.bad(node, f"branches of different types {ta} / {tb}")
         if pa or pb:
@@ -734,7 +740,12 @@ class FunctionTranslator:
             items = []
             for k_, v_ in zip(node.keys, node.values):
                 kc = self.e_Constant(k_, env).code
-                items.append(sd["item"].format(key=kc, value=self.coerce(self.expr(v_, env), sd["value_ty"], v_).code))
+                saved_hint_ = getattr(self, "value_hint", None)
+                self.value_hint = sd["value_ty"] if isinstance(v_, ast.IfExp) else None
+                try:
+                    items.append(sd["item"].format(key=kc, value=self.coerce(self.expr(v_, env), sd["value_ty"], v_).code))
+                finally:
+                    self.value_hint = saved_hint_
             return Val("(" + sd["code"].format(items="; ".join(items)) + ")", sd["ty"])
         if node.keys or want is None or want.kind != "dict":
             self.bad(node, "dict literal: only `{}` assigned to a local declared as a dict in the spec ('locals') is in the subset")
@@ -1047,7 +1058,19 @@ class FunctionTranslator:
                 # additive: a function entry may list `builtins`: names read as the Python built-in although the spec maps them under `funcs`
                 return b(node, args, kwargs, env)
             if f.id in self.spec.get("funcs", {}):
-                return self.call_spec(self.spec["funcs"][f.id], None, args, kwargs, node, env)
+                ent_ = self.spec["funcs"][f.id]
+                if ent_.get("overloads"):
+                    # additive (C18): a mapped function used at several argument types (list(field value) / list(keys of a dict)):
+                    # the FIRST alternative whose arguments type-check is used; none -> rejected (same rule as for mapped methods)
+                    saved_ = (len(self.binds), self.fresh_n, list(self.idioms))
+                    for alt in ent_["overloads"]:
+                        try:
+                            return self.call_spec(alt, None, args, kwargs, node, env)
+                        except Untranslatable:
+                            del self.binds[saved_[0]:]
+                            self.fresh_n, self.idioms = saved_[1], list(saved_[2])
+                    self.bad(node, f"call of {f.id!r}: the arguments match none of the spec's overloads")
+                return self.call_spec(ent_, None, args, kwargs, node, env)
             if f.id in self.mod.translated and f.id not in env.vars:
                 return self.call_translated(self.mod.translated[f.id], None, args, kwargs, node, env)
             if b is not None and f.id not in env.vars:
